@@ -582,6 +582,6 @@ def solve(lines, want_model_vars=()):
     if verdict == "sat" and want_model_vars:
         text2 = text + "(get-value (" + " ".join(want_model_vars) + "))\n"
         p = subprocess.run([Z3, "-in", "-T:120"], input=text2, capture_output=True, text=True, timeout=150)
-        for m in re.finditer(r"\((\S+) (#x[0-9a-fA-F]+|#b[01]+|\(- \d+\)|-?\d+|true|false|\(_ bv\d+ \d+\))\)", p.stdout):
+        for m in re.finditer(r"\(([^\s()]+) (#x[0-9a-fA-F]+|#b[01]+|\(- \d+\)|-?\d+|true|false|\(_ bv\d+ \d+\))\)", p.stdout):
             model[m.group(1)] = m.group(2)
     return verdict, model, dt, res
